@@ -286,6 +286,23 @@ func learnDummyDrop(name string) {
 	}
 }
 
+// poolID is the id the EventSequencer gives an IP pool (cidrToIPPoolID).
+func poolID(k model.IPPoolKey) string { return strings.Replace(k.CIDR.String(), "/", "-", 1) }
+
+// learnPool: content class of the IPAMPoolUpdate the real EventSequencer emits for a pool value.
+func learnPool(e *entry, v int) string {
+	m := newMiniSeq()
+	key := e.key.(model.IPPoolKey)
+	m.seq.OnIPPoolUpdate(key, e.variants[v].(*model.IPPool))
+	m.seq.Flush()
+	for _, ev := range m.msgs {
+		if u, ok := ev.(*proto.IPAMPoolUpdate); ok {
+			return tags.classify("pool/"+poolID(key), canon(u.Pool), fmt.Sprintf("%s#%d", e.name, v))
+		}
+	}
+	panic("no IPAMPoolUpdate for " + e.name)
+}
+
 func wepText(w *proto.WorkloadEndpoint) string {
 	c := googleproto.Clone(w).(*proto.WorkloadEndpoint)
 	c.Tiers = nil
@@ -406,6 +423,13 @@ func describe(e *entry, v int) string {
 		}
 		return fmt.Sprintf("%s %s %s %s %s %s%s%s %s %s %s", head, learnPolicy(e, v), tier, orderTok(p.Order), hx(p.Selector),
 			b01(p.DoNotTrack), b01(p.PreDNAT), b01(p.ApplyOnForward), joinOr(p.Types, ","), rulesTok(p.InboundRules), rulesTok(p.OutboundRules))
+	case model.IPPoolKey:
+		// a pure pass-through (DataplanePassthru): category, key, content class
+		head := "pt pool " + poolID(key)
+		if !ok {
+			return head + " del"
+		}
+		return head + " " + learnPool(e, v)
 	case model.ResourceKey:
 		if key.Kind == v3.KindProfile {
 			head := "pl " + key.Name
@@ -479,10 +503,11 @@ type projection struct {
 	profs map[string]polState
 	weps  map[string]epState
 	heps  map[string]epState
+	pools map[string]string // pool id -> content class
 }
 
 func newProjection() *projection {
-	return &projection{pols: map[string]polState{}, profs: map[string]polState{}, weps: map[string]epState{}, heps: map[string]epState{}}
+	return &projection{pols: map[string]polState{}, profs: map[string]polState{}, weps: map[string]epState{}, heps: map[string]epState{}, pools: map[string]string{}}
 }
 
 func ruleRefs(in, out []*proto.Rule) []string {
@@ -535,6 +560,10 @@ func (p *projection) onMsg(ev any) {
 			tiers: [4][]*proto.TierInfo{m.Endpoint.Tiers, m.Endpoint.UntrackedTiers, m.Endpoint.PreDnatTiers, m.Endpoint.ForwardTiers}}
 	case *proto.HostEndpointRemove:
 		delete(p.heps, m.Id.EndpointId)
+	case *proto.IPAMPoolUpdate:
+		p.pools[m.Id] = tags.lookup("pool/"+m.Id, canon(m.Pool))
+	case *proto.IPAMPoolRemove:
+		delete(p.pools, m.Id)
 	}
 }
 
@@ -572,6 +601,9 @@ func (p *projection) render(d *dpState) string {
 	for k, s := range p.heps {
 		out = append(out, fmt.Sprintf("hep %s %s [%s] %s | %s | %s | %s", k, s.tag, strings.Join(s.profiles, ","),
 			tiersString(s.tiers[0]), tiersString(s.tiers[1]), tiersString(s.tiers[2]), tiersString(s.tiers[3])))
+	}
+	for id, tag := range p.pools {
+		out = append(out, fmt.Sprintf("gen pool %s %s", id, tag))
 	}
 	for id, s := range d.ipsets {
 		var ms []string
